@@ -24,7 +24,7 @@ DECIDING = ["dt.start_of", "dt.end_of", "date.start_of", "date.end_of", "provena
 FLOORS = {"quick": {"dt.start_of": 100000, "dt.end_of": 100000, "date.start_of": 3000, "date.end_of": 3000, "provenance": 30000},
           "thorough": {"dt.start_of": 10**6, "dt.end_of": 10**6, "date.start_of": 30000, "date.end_of": 30000, "provenance": 300000}}
 REQUIRED_HOOKS = ["DateTime.start_of", "DateTime.end_of", "Date.start_of", "Date.end_of"]
-TECHNIQUE = "runtime contracts on start_of/end_of checking the property's clauses (unit membership, ordering, +-1us neighbours rendered by the tz-database oracle, idempotence) plus a provenance-independence checker"
+TECHNIQUE = "runtime contracts on start_of/end_of checking the property's clauses (unit membership, ordering, +-1us neighbours rendered by the tz-database oracle, idempotence) plus a provenance-independence checker; both passes of a repeated wall time asked within one case (history workload)"
 LEVEL_TEXT = ("every observed start_of/end_of call is judged clause by clause with an independently parsed tz database; values are placed "
               "on every day whose first or last wall time is skipped or repeated and around every sub-day gap/overlap, obtained three "
               "ways (constructed fold 1, constructed fold 0, converted); 9 units x 7 week configurations; held on what was observed")
